@@ -48,10 +48,10 @@ def run_config(chk, tier, cfgname):
     slots, inits = prog.vtable_slots()
     chk.inst("O1-single-vtable-initialiser", "gc_ptr::GcVtable", len(set(inits)) == 1,
              detail="GcVtable is initialised in %s (must be the single const VtableFor::VTABLE)" % sorted(set(inits)))
-    callers = sorted({e.caller for e in prog.callers_of("alloc::alloc::dealloc")})
-    ok = bool(callers) and all(c in slots.values() for c in callers)
-    chk.inst("O1-allocator-release-only-in-vtable-slot", "alloc::alloc::dealloc", ok,
-             detail="alloc::dealloc is called from %s; must be only the closures stored in GcVtable slots %s" % (callers, slots))
+    # the allocator's release is reached only through the closures stored in the GcVtable slots (helpers below
+    # them are fine): nothing else can return a block
+    common.confined(chk, prog, "O1-allocator-release-only-in-vtable-slot", "alloc::alloc::dealloc", sorted(set(slots.values())),
+                    "the allocator's dealloc is reachable without going through the vtable's dealloc slot")
     chk.extra["functions_analysed"] = len(prog.seed)
 
 
